@@ -32,6 +32,9 @@ var lastCliEnv *cliEnv
 func (s xferSpec) judgeCut(res *xferResult, env *cliEnv) (outcome, bad, key string) {
 	gotErr := errText(res.err)
 	outcome = fmt.Sprintf("n=%d err=%q after=%v wait=%v", res.n, gotErr, res.afterErr != nil, res.waitErr != nil)
+	if res.n < 0 {
+		return outcome, fmt.Sprintf("%s: returned a negative count\n  %s", s, outcome), "cut-count:" + s.api
+	}
 	fail := func(k, f string, a ...any) (string, string, string) {
 		return outcome, fmt.Sprintf("%s: ", s) + fmt.Sprintf(f, a...) + "\n  " + outcome + " wire=[" + env.peer.wireString() + "]", "cut-" + k + ":" + s.api
 	}
